@@ -51,6 +51,12 @@ def use_repo():
     return xyzpy
 
 
+class LibraryFailure(Exception):
+    """The library under test failed in an operation that must succeed on its own (an uninterrupted sow / grow / reap,
+    a single grower, a progress query on a quiescent crop): whatever the property says about crashes or interleavings
+    of that operation cannot hold then.  Reported as a violation by the command line driver, not as a machinery failure."""
+
+
 def stable_hash(obj):
     return hashlib.sha1(json.dumps(obj, sort_keys=True, default=str).encode()).hexdigest()[:16]
 
